@@ -319,6 +319,25 @@ def r5(ctx: Context) -> None:
     ctx.floor("R5", "child runner id registrations", n, 3)
 
 
+def r6(ctx: Context) -> None:
+    """The recovery handlers log the error they caught before they hand the taken invocations back."""
+    from ..flow import may_fail_sites
+
+    ctx.rule("R6", "rendering cannot fail: no __str__ / __repr__ / __format__ of a pynenc class (the errors the recovery handlers format into their log line before re-routing, the records and contexts logged along the way) has an element access that some state of the object makes fail, a next() without default, or a raise - the path engines (R3, C03, C11) treat formatting and logging as total; an exception there escapes the handler before reroute_invocations and strands what was already taken")
+    n = 0
+    for c in ctx.repo.classes.values():
+        if not c.module.name.startswith("pynenc."):
+            continue
+        for nm in ("__str__", "__repr__", "__format__"):
+            m = c.methods.get(nm)
+            if m is None:
+                continue
+            n += 1
+            bad = may_fail_sites(m.node)
+            ctx.add("R6", f"{m.qualname}::cannot-raise", not bad, m.loc(bad[0][0]) if bad else m.loc(), "" if not bad else f"{bad[0][1]}: formatting this object raises for such a state - e.g. a transition error whose set of allowed statuses is empty (a final status) - inside an `except` block that was about to re-route")
+    ctx.floor("R6", "rendering methods", n, 15)
+
+
 def run(ctx: Context) -> None:
     sm = extract(ctx.repo)
     sites = sqlmini.sites(ctx.repo)
@@ -327,6 +346,21 @@ def run(ctx: Context) -> None:
     r3(ctx, sm)
     r4(ctx)
     r5(ctx)
+    r6(ctx)
+    # R7: what the scans read is what the transitions wrote: the status record / status index (in memory) and the status
+    # columns (SQLite) have no writer besides the atomic transition, registration and purge (shared with C01/R4) - a scan
+    # over an index that some read-only looking query narrowed in place skips stuck invocations
+    from . import c01
+
+    ctx.rule("R7", "the stores the recovery scans iterate are written only by the atomic transition, registration, clean-up and purge, directly or through an alias / a live container handed out by a sibling method (shared with C01/R4)")
+    sub = Context("C01", ctx.repo, ctx.tier, ctx.seed)
+    sub._resolver = ctx._resolver
+    c01.r4_single_writer(sub, sm)
+    for i in sub.instances:
+        k = i.key.split("/", 2)[2]
+        if k.startswith(("mem-record-writer", "foreign-record-write", "sql-status-writer")):
+            ctx.add("R7", k, i.ok, i.where, i.detail)
+    ctx.floor("R7", "status store writers", ctx.count("R7"), 8)
     ctx.exhaustive = True
     ctx.not_decided += [
         "numeric behaviour at the boundary instant (decided only as the comparison operator)",
